@@ -4,6 +4,7 @@ dictionaries with junk bits; (2) search: exact ideal distributions (numpy) of th
 the remapped circuit un-mapped through BackendQubitMapping; total counts conserved; remapped circuit has
 register size max(target)+1 and acts as the original on relabelled qubits and as identity elsewhere;
 duplicate targets / unmapped used qubits are rejected."""
+import json
 import os
 import random
 import sys
@@ -138,6 +139,82 @@ def main():
                 res.fail("sweep:unmap:distribution", "un-mapped distribution differs from the original distribution",
                          {"mapping": mp, "circuit": describe(c), "bitstring": b})
                 break
+    # executable model of QubitRemappingTranspiler (RemapExec.v): constructor check, dictionary lookups, the
+    # KeyError -> ValueError path, register size, indices of every gate - on mappings with and without duplicate
+    # targets / missing qubits / no entries at all
+    IMP2 = ("From Coq Require Import ZArith NArith List Bool.\nFrom QPM Require Import Remap RemapExec.\n"
+            "Import ListNotations.\nOpen Scope Z_scope.")
+    DEFS2 = """
+Definition encq (l : list nat) : list Z := map Z.of_nat l.
+Definition encr (m : qmap) (gs : list (nat * list nat)) : list Z :=
+  (if ctor_ok m then 1 else 0) ::
+  match remap_circuit m gs with
+  | None => [-1]
+  | Some gs' => Z.of_nat (out_qubit_count m) ::
+                flat_map (fun g => Z.of_nat (fst g) :: Z.of_nat (length (snd g)) :: encq (snd g)) gs'
+  end.
+"""
+    terms2, reals2, info2 = [], [], []
+    for _ in range(300 if a.tier == "quick" else 2000):
+        n = rng.randint(1, 5)
+        r = rng.random()
+        keys = list(range(n))
+        if r < 0.35:
+            keys = rng.sample(range(n), rng.randint(0 if r < 0.04 else 1, n))  # some used qubits may have no entry
+        reg = rng.randint(max(1, len(keys)), 9)
+        vals = rng.sample(range(reg), len(keys))
+        if vals and rng.random() < 0.15:
+            vals[rng.randrange(len(vals))] = rng.choice(vals)               # (possibly) duplicated target
+        items = list(zip(keys, vals))
+        rng.shuffle(items)
+        mp = dict(items)
+        c = QuantumCircuit(n)
+        for _ in range(rng.randint(0, 5)):
+            c.add_gate(rand_gate(rng, npr, n, ["H", "RX", "CNOT", "CZ", "SWAP", "TOFFOLI", "UM1", "UM2", "Pauli", "PauliRotation"],
+                                 id0=False))
+        gl = [(i, list(g.control_indices) + list(g.target_indices)) for i, g in enumerate(c.gates)]
+        mcoq = "[" + "; ".join(f"({k}%nat, {v}%nat)" for k, v in mp.items()) + "]"
+        gcoq = "[" + "; ".join(f"({i}%nat, [" + "; ".join(f"{q}%nat" for q in qs) + "])" for i, qs in gl) + "]"
+        terms2.append(f"encr {mcoq} {gcoq}")
+        inp = {"mapping": {str(k): v for k, v in mp.items()}, "circuit": describe(c)}
+        try:
+            t = QubitRemappingTranspiler(mp)
+            real = [1]
+        except ValueError:
+            t, real = None, [0]
+        except Exception as e:  # noqa: BLE001
+            res.fail("corr:remap_exec:ctor_error", f"{type(e).__name__}: {str(e)[:120]}", inp)
+            t, real = None, None
+        if t is not None:
+            try:
+                out = t(c)
+                real.append(out.qubit_count)
+                for i, h in enumerate(out.gates):
+                    qs = list(h.control_indices) + list(h.target_indices)
+                    real += [i, len(qs)] + qs
+            except ValueError:
+                real.append(-1)
+            except Exception as e:  # noqa: BLE001
+                res.fail("corr:remap_exec:call_error", f"{type(e).__name__}: {str(e)[:120]}", inp)
+                real = None
+        reals2.append(real)
+        info2.append(inp)
+    try:
+        model2 = coqeval.eval_cases(a.work, "c18exec", IMP2, DEFS2, terms2)
+        for inp, r, m_ in zip(info2, reals2, model2):
+            if r is None:
+                continue
+            kind = "ctor_rejects" if r[0] == 0 else ("call_rejects" if r[1] == -1 else "remapped")
+            res.count(("exec", json.dumps(inp, sort_keys=True, default=str)), nontrivial=kind == "remapped" and len(r) > 2,
+                      bucket="corr:remap_exec:" + kind)
+            if r[0] == 0:
+                if m_[0] != 0:
+                    res.fail("corr:remap_exec:ctor", "the constructor raised, the model accepts the mapping", inp)
+            elif r != m_:
+                res.fail("corr:remap_exec", f"model {m_} != implementation {r} "
+                         "([ctor ok, register size or -1 = ValueError, (gate, #indices, indices...)...])", inp)
+    except Exception as e:  # noqa: BLE001
+        res.broken.append({"what": "correspondence C18 (executable transpiler model): model evaluation failed", "detail": str(e)[-1200:]})
     # rejections
     try:
         QubitRemappingTranspiler({0: 1, 1: 1})
